@@ -28,6 +28,22 @@
 
 #include "assert.h"
 
+#ifdef CPP_TBOX_VERIF
+//! verification hook: with AddressSanitizer, blocks parked in the pool are poisoned so that
+//! touching a freed pooled object is reported (the free-list link is read only while unpoisoned)
+#  if defined(__SANITIZE_ADDRESS__)
+#    define TBOX_VERIF_POOL_POISON 1
+#  elif defined(__has_feature)
+#    if __has_feature(address_sanitizer)
+#      define TBOX_VERIF_POOL_POISON 1
+#    endif
+#  endif
+#  ifdef TBOX_VERIF_POOL_POISON
+extern "C" void __asan_poison_memory_region(void const volatile *addr, size_t size);
+extern "C" void __asan_unpoison_memory_region(void const volatile *addr, size_t size);
+#  endif
+#endif
+
 namespace tbox {
 
 /**
@@ -82,6 +98,9 @@ class ObjectPool {
     ~ObjectPool() {
         //! 释放掉所有的空闲块
         while (free_header_ != nullptr) {
+#ifdef TBOX_VERIF_POOL_POISON
+            __asan_unpoison_memory_region(free_header_, sizeof(Block));
+#endif
             auto next = free_header_->next;
             ::free(free_header_);
             free_header_ = next;
@@ -103,6 +122,9 @@ class ObjectPool {
             block = reinterpret_cast<Block*>(malloc(sizeof(Block)));
         } else {
             //! 直接从空闲块链表取出一块
+#ifdef TBOX_VERIF_POOL_POISON
+            __asan_unpoison_memory_region(block, sizeof(Block));
+#endif
             free_header_ = block->next;
             --free_number_;
         }
@@ -136,6 +158,9 @@ class ObjectPool {
 
             if (free_number_ > stat_.peak_free_number)
                 stat_.peak_free_number = free_number_;
+#ifdef TBOX_VERIF_POOL_POISON
+            __asan_poison_memory_region(block, sizeof(Block));
+#endif
         } else {
             //! 否则就直接释放掉
             ::free(block);
